@@ -8,7 +8,7 @@
    The mirror models a true-colour server format (C: `format->trueColour &&` in the interpolation test;
    for a colour-mapped format the second rule applies - not modelled, not generated). *)
 Require Import ZArith List Bool Lia Znumtheory.
-From LV Require Import Cursor.CursorDefs Cursor.CursorProofs Cursor.CursorSession Cursor.CursorColour.
+From LV Require Import Cursor.CursorDefs Cursor.CursorProofs Cursor.CursorSession Cursor.CursorSessionProofs Cursor.CursorColour.
 Import ListNotations.
 Local Open Scope Z_scope.
 
@@ -160,3 +160,93 @@ Proof.
       rewrite !Z2Nat.id in Ep by lia. split; [exact Ep|]. rewrite E2. exact Rp.
     + rewrite E2. apply nth_overflow. lia.
 Qed.
+
+(* ------------------------------------------------------------------ the rule, stated independently *)
+(* luminance: the three channels (p >> shift) & max scaled to 0..255, their mean *)
+Definition lum (fmt : pixfmt) (p : Z) : Z :=
+  (255 * red_of fmt p / rmax fmt + 255 * green_of fmt p / gmax fmt + 255 * blue_of fmt p / bmax fmt) / 3.
+
+(* the background pixel: channels max*comp/65535 (CursorColour.colour_ok holds for it) *)
+Definition back_pixel (fmt : pixfmt) (c : cursor) : Z := pixmod fmt (rgb_word_scaled fmt (cback c)).
+
+Definition x_bit_rule (fmt : pixfmt) (c : cursor) (p : Z) : bool :=
+  if interp_of fmt c then 128 <=? lum fmt p else negb (p =? back_pixel fmt c).
+
+Lemma channel_256 : forall mx k sh p, 1 <= k -> mx = 2 ^ k - 1 -> 0 <= sh -> sh + k <= 32 ->
+  Z.quot (255 * Z.shiftr (Z.land (u32 (Z.shiftl mx sh)) p) sh) mx = 255 * Z.land (Z.shiftr p sh) mx / mx.
+Proof.
+  intros mx k sh p Hk Em Hs Hin.
+  assert (P : 2 <= 2 ^ k) by (change 2 with (2 ^ 1) at 1; apply Z.pow_le_mono_r; lia).
+  assert (Mx : 0 <= mx < 2 ^ k) by lia.
+  rewrite (u32_small (Z.shiftl mx sh)) by (apply (shifted_small mx k sh); lia).
+  rewrite Z.shiftr_land, Z.shiftr_shiftl_l by lia. rewrite Z.sub_diag, Z.shiftl_0_r.
+  rewrite (Z.land_comm mx). apply Z.quot_div_nonneg; [|lia].
+  apply Z.mul_nonneg_nonneg; [lia|]. apply Z.land_nonneg. right. lia.
+Qed.
+
+Lemma grey_is_lum : forall fmt kr kg kb p,
+  fmt_ok fmt kr kg kb -> 1 <= kr -> 1 <= kg -> 1 <= kb -> bpp fmt <= 4 -> grey_of fmt p = lum fmt p.
+Proof.
+  intros fmt kr kg kb p F Kr Kg Kb B. destruct F. unfold grey_of, lum, red_of, green_of, blue_of.
+  rewrite (channel_256 (rmax fmt) kr) by lia. rewrite (channel_256 (gmax fmt) kg) by lia.
+  rewrite (channel_256 (bmax fmt) kb) by lia.
+  apply Z.quot_div_nonneg; [|lia].
+  assert (N : forall mx v, 0 < mx -> 0 <= 255 * Z.land v mx / mx).
+  { intros mx v Hm. apply Z.div_pos; [|exact Hm]. apply Z.mul_nonneg_nonneg; [lia|]. apply Z.land_nonneg. right. lia. }
+  assert (P2 : forall k, 1 <= k -> 2 <= 2 ^ k) by (intros k Hk; change 2 with (2 ^ 1) at 1; apply Z.pow_le_mono_r; lia).
+  pose proof (P2 kr Kr). pose proof (P2 kg Kg). pose proof (P2 kb Kb).
+  assert (0 < rmax fmt) by lia. assert (0 < gmax fmt) by lia. assert (0 < bmax fmt) by lia.
+  pose proof (N (rmax fmt) (Z.shiftr p (rshift fmt)) ltac:(lia)).
+  pose proof (N (gmax fmt) (Z.shiftr p (gshift fmt)) ltac:(lia)).
+  pose proof (N (bmax fmt) (Z.shiftr p (bshift fmt)) ltac:(lia)). lia.
+Qed.
+
+Lemma backpix_is_scaled : forall fmt kr kg kb c,
+  fmt_ok fmt kr kg kb -> 1 <= kr -> bpp fmt <= 4 ->
+  (let '(r, g, b) := cback c in 0 <= r /\ 0 <= g /\ 0 <= b) ->
+  backpix_m fmt c = back_pixel fmt c.
+Proof.
+  intros fmt kr kg kb c F Kr B Rg. unfold backpix_m, back_pixel, rgb_word_scaled, chan.
+  destruct (cback c) as [[br bg] bb]. destruct Rg as (Hr & Hg & Hb).
+  destruct F as [Okr Okg Okb Ermax Egmax Ebmax Ors Ogs Obs _ _ _ Orin _ _].
+  assert (P : forall k, 0 <= k -> 0 < 2 ^ k) by (intros; apply Z.pow_pos_nonneg; lia).
+  pose proof (P kr Okr). pose proof (P kg Okg). pose proof (P kb Okb).
+  rewrite !Z.quot_div_nonneg by nia.
+  unfold pixmod, u32, two32.
+  assert (Bp : 0 <= 8 * bpp fmt <= 32) by lia.
+  symmetry. apply Zmod_div_mod; [apply P; lia|reflexivity|].
+  exists (2 ^ (32 - 8 * bpp fmt)). change 4294967296 with (2 ^ 32).
+  rewrite <- Z.pow_add_r; [f_equal; lia|lia|lia].
+Qed.
+
+(* C15_x_from_rich *)
+Theorem x_from_rich_spec : forall fmt kr kg kb c c',
+  fmt_ok fmt kr kg kb -> 1 <= kr -> 1 <= kg -> 1 <= kb -> bpp fmt <= 4 ->
+  (let '(r, g, b) := cback c in 0 <= r /\ 0 <= g /\ 0 <= b) ->
+  0 <= cw c -> 0 <= ch c -> make_x_from_rich fmt c = Some c' ->
+  cw c' = cw c /\ ch c' = ch c /\ cxhot c' = cxhot c /\ cyhot c' = cyhot c /\ cmask c' = cmask c /\
+  crich c' = crich c /\ calpha c' = calpha c /\ cback c' = cback c /\
+  cfore c' = (if interp_of fmt c then (65535, 65535, 65535) else cfore c) /\
+  exists src, csource c' = Some src /\ length src = Z.to_nat (w8 c * ch c) /\
+    forall i j, 0 <= i < 8 * w8 c -> 0 <= j < ch c ->
+      if i <? cw c
+      then exists p, zidx (opt_list (crich c)) (j * cw c + i) = Some p /\ src_bit c src i j = x_bit_rule fmt c p
+      else src_bit c src i j = false.
+Proof.
+  intros fmt kr kg kb c c' F Kr Kg Kb B Rg Hw Hh H.
+  destruct (CursorSessionProofs.make_x_from_rich_spec fmt c c' H) as (G1 & G2 & G3 & G4 & G5 & G6 & G7 & _ & _).
+  destruct (x_from_rich_bits fmt c c' Hw Hh H) as (Ef & Ebk & src & Es & Ls & Bits).
+  repeat (split; [assumption|]).
+  exists src. split; [exact Es|]. split; [exact Ls|].
+  intros i j Hi Hj. specialize (Bits i j Hi Hj). destruct (i <? cw c); [|exact Bits].
+  destruct Bits as (p & Ep & Rp). exists p. split; [exact Ep|]. rewrite Rp.
+  unfold rule_m, x_bit_rule. rewrite (grey_is_lum fmt kr kg kb) by assumption.
+  rewrite (backpix_is_scaled fmt kr kg kb) by assumption. reflexivity.
+Qed.
+
+(* not vacuous: 32 bpp, a 2x1 cursor with a white and a black pixel, colours all 0: interpolation *)
+Example x_from_rich_nonvacuous :
+  exists c', make_x_from_rich fmt32
+               (mkcur 2 1 0 0 None [192] (Some [16777215; 0]) None false (0, 0, 0) (0, 0, 0) false) = Some c' /\
+             csource c' = Some [128] /\ cfore c' = (65535, 65535, 65535).
+Proof. eexists. split; [vm_compute; reflexivity|]. split; reflexivity. Qed.
